@@ -20,7 +20,8 @@ THEOREMS = [P + t for t in [
 ]]
 RULE = ("descriptions = generated compu methods of the 8 categories x internal/physical types A_UINT32/A_INT32/A_FLOAT32/A_FLOAT64 "
         "(string types for TEXTTABLE/IDENTICAL) x 1-4 scales (TAB-INTP 2-5 points) x coefficients/denominators in small integers and "
-        "halves x OPEN/CLOSED/INFINITE/absent limits; values = whole 8-bit window of the internal type (thorough) or limit "
+        "halves x OPEN/CLOSED/INFINITE/absent limits, plus TEXTTABLEs around zero (every range in [-3,3] x every inverse value inside it; random "
+        "signed/float tables with inverse value, limit or default equal to 0 / 0.0 / empty text); values = whole 8-bit window of the internal type (thorough) or limit "
         "boundaries +-1 and random (quick), their physical images and neighbours, wrong Python types; one evaluated case = "
         "(description, operation, value); distinct = distinct (description, operation, value); non-trivial = the value is valid "
         "for the description and the operation returned a value")
@@ -463,6 +464,21 @@ def run(ctx):
                     desc = L.gen_desc(rng, cat, ity, pty)
                     ivals = L.internal_values(rng, desc, True)
                     run_method(ctx, desc, ivals, lambda imgs, d=desc: L.physical_values(rng, d, imgs, True), "type-grid", pending)
+    flush_model(ctx, pending)
+    # (d2) TEXTTABLE around zero (round 3): values Python treats as false (0, 0.0, "") in every role — inverse value,
+    #      lower/upper limit, default — with the other roles different from them.  Own random stream, so the
+    #      streams of (b)-(e) are what they were.  Small scope exhaustively, then random methods.
+    zrng = ctx.sub_rng("texttable-zero")
+    for ity in L.SIGNED_ITYPES:
+        for desc in L.texttable_small_scope(ity, -3, 3 if ity != "A_FLOAT32" or big else 1):
+            ivals = L.internal_values(zrng, desc, False)
+            run_method(ctx, desc, ivals, lambda imgs, d=desc: L.physical_values(zrng, d, imgs, False), desc["family"], pending)
+    for n in range(2500 if big else 400):
+        desc = L.gen_texttable_zero(zrng)
+        ivals = L.internal_values(zrng, desc, big and n % 4 == 0)
+        run_method(ctx, desc, ivals, lambda imgs, d=desc: L.physical_values(zrng, d, imgs, False), desc["family"], pending)
+        if len(pending) >= 400:
+            flush_model(ctx, pending)
     flush_model(ctx, pending)
     # (e) malformed stream: constructor rejections and foreign errors, correspondence only
     for n in range(1500 if big else 300):
